@@ -28,9 +28,13 @@ TRef == Is("Ref") /\ Key(E.cfg, E.q) \notin DOMAIN ref
 \* a new process starts: no calculators, the shared state is the reference one whatever the seed / directory
 TStart == Is("Start") /\ E.shared = sharedRef /\ live' = [k \in {} |-> ""] /\ sharedNow' = E.shared /\ disk' = [c \in Paths |-> c]
           /\ UNCHANGED <<ref, sharedRef>>
-\* the calculator constructed from path E.cfg is the data set that path holds now (Lifecycle!Construct)
+\* the calculator constructed from path E.cfg is the data set that path holds now (Lifecycle!Construct); "A2" / "C2" name the second
+\* settings file in the directory of A / C: the same input files (whatever that directory holds now) under the variant settings
+IsAlt(c) == c \in {"A2", "C2"}
+Dir(c) == IF c = "A2" THEN "A" ELSE IF c = "C2" THEN "C" ELSE c
+Held(c) == IF IsAlt(c) THEN disk[Dir(c)] \o "2" ELSE disk[c]
 TConstruct == Is("Construct") /\ E.id \notin DOMAIN live /\ Home
-              /\ live' = [k \in (DOMAIN live) \cup {E.id} |-> IF k = E.id THEN disk[E.cfg] ELSE live[k]]
+              /\ live' = [k \in (DOMAIN live) \cup {E.id} |-> IF k = E.id THEN Held(E.cfg) ELSE live[k]]
               /\ E.shared = sharedNow /\ UNCHANGED <<ref, sharedRef, sharedNow, disk>>
 TRewrite == Is("Rewrite") /\ Home /\ disk' = [disk EXCEPT ![E.path] = E.data] /\ E.shared = sharedNow
             /\ UNCHANGED <<ref, sharedRef, live, sharedNow>>
